@@ -410,6 +410,9 @@ func checkC15(c *Ctx) {
 		c.Bad(D1, "msg", "clock comparisons", "-", "no comparison between clock values found")
 	}
 
+	ruleStartStamp(c, b, "C15.A2")
+	ruleClockTicks(c, b, "C15.T1")
+
 	// ------------------------------------------------------------------ A1
 	marks, _ := b.gcEvents()
 	var callMark []ssa.Instruction
@@ -487,13 +490,7 @@ func checkC15(c *Ctx) {
 				continue
 			}
 			nSet++
-			cl, isC := strip(nv).(*ssa.Call)
-			if !isC {
-				okSet = false
-				continue
-			}
-			fa2, ok := cl.Call.Args[0].(*ssa.FieldAddr)
-			if !ok || fieldOfAddr(fa2) != b.fEpoch {
+			if !b.isEpochRead(nv, 0) {
 				okSet = false
 			}
 		}
@@ -548,4 +545,133 @@ func (b *boxModel) isInnerTotals(v ssa.Value, depth int) bool {
 		}
 	}
 	return false
+}
+
+// isEpochRead: v is the result of an atomic load of the epoch counter — directly, through a helper
+// that returns such a load, or kept in a field of a local (by-value) struct built in the same function.
+func (b *boxModel) isEpochRead(v ssa.Value, depth int) bool {
+	if depth > 4 {
+		return false
+	}
+	v = strip(v)
+	switch x := v.(type) {
+	case *ssa.Call:
+		if o := calleeObj(&x.Call); o != nil && o.Pkg() != nil && o.Pkg().Path() == "sync/atomic" && o.Name() == "LoadUint64" {
+			fa, ok := x.Call.Args[0].(*ssa.FieldAddr)
+			return ok && fieldOfAddr(fa) == b.fEpoch
+		}
+		g := x.Call.StaticCallee()
+		if g == nil || len(g.Blocks) == 0 || g.Signature.Results().Len() != 1 {
+			return false
+		}
+		n := 0
+		for _, in := range instrsOf(g) {
+			if r, ok := in.(*ssa.Return); ok {
+				n++
+				if !b.isEpochRead(r.Results[0], depth+1) {
+					return false
+				}
+			}
+		}
+		return n > 0
+	case *ssa.UnOp:
+		if x.Op != token.MUL {
+			return false
+		}
+		fa, ok := x.X.(*ssa.FieldAddr)
+		if !ok {
+			return false
+		}
+		if fv := structFieldValue(fa.X, fieldOfAddr(fa), 0); fv != nil {
+			return b.isEpochRead(fv, depth+1)
+		}
+	case *ssa.Field:
+		if fv := structFieldValue(x.X, x.X.Type().Underlying().(*types.Struct).Field(x.Field), 0); fv != nil {
+			return b.isEpochRead(fv, depth+1)
+		}
+	}
+	return false
+}
+
+// ruleStartStamp: every mark in startedSending is stamped with the epoch counter as just read.  The
+// stamp is what the collector compares with the current epoch: a mark stamped with anything older (the
+// epoch of the last collection, a constant, zero) is swept by the collection at the end of the very Send
+// that set it once the process has been idle for longer than the expiry — the topic then counts as not
+// started, and every message that arrives after the first send is buffered and never handed over.
+func ruleStartStamp(c *Ctx, b *boxModel, rule string) {
+	c.Rule(rule, "the started mark is stamped with the current epoch (read atomically where it is set)", 1)
+	n := 0
+	for _, fn := range b.fns {
+		for _, in := range instrsOf(fn) {
+			mu, ok := in.(*ssa.MapUpdate)
+			if !ok || !isLoadOfField(mu.Map, b.fStarted) {
+				continue
+			}
+			n++
+			c.Check(b.isEpochRead(mu.Value, 0), rule, FuncName(fn), "stamp of the started mark", b.m.Pos(mu.Pos()),
+				"startedSending[topic] ← atomic load of the epoch counter",
+				"the started mark is not stamped with the current epoch: after an idle period longer than the expiry the collection that runs at the end of the same Send removes the fresh mark, and messages arriving after the first send are buffered for ever instead of being handed over")
+		}
+	}
+	if n == 0 {
+		c.Bad(rule, "msg", "stamp of the started mark", "-", "no store into startedSending found")
+	}
+}
+
+// ruleClockTicks (C15.T1): the ticker that drives the epoch counter stays live while the clock runs.
+// The function that obtains the ticker from Box.NewTicker and starts the clock goroutine must not stop
+// it itself — neither directly nor by a `defer ticker.Stop()`, which runs when that function returns,
+// right after the goroutine was started: the ticker then never ticks, the epoch stays 0, `now − lastGC`
+// is always 0 and nothing buffered is ever collected (senders stay throttled by topics that should have
+// expired).  Stopping belongs to the stop function handed out (Box.stopClock) or to the clock goroutine.
+func ruleClockTicks(c *Ctx, b *boxModel, rule string) {
+	c.Rule(rule, "the epoch ticker is not stopped by the function that starts the clock", 1)
+	fNew := b.m.Field(PkgMsg, "Box", "NewTicker")
+	if fNew == nil {
+		c.Unk(rule, "msg", "ticker construction", "-", "Box.NewTicker not found")
+		return
+	}
+	sl := NewSlicer(b.m, PkgMsg)
+	n := 0
+	for _, mk := range callsOfFuncField(b.fns, fNew) {
+		mkv, ok := mk.(*ssa.Call)
+		if !ok {
+			continue
+		}
+		n++
+		starter := mk.Parent()
+		bad := ""
+		for _, fn := range b.fns {
+			// code that runs as part of the starter's own invocation: the starter and its transparent steps
+			if fn != starter && !inlinedInto(fn, starter) {
+				continue
+			}
+			for _, in := range instrsOf(fn) {
+				ci, ok := in.(ssa.CallInstruction)
+				if !ok {
+					continue
+				}
+				if _, isGo := in.(*ssa.Go); isGo {
+					continue
+				}
+				cal := staticCallee(ci.Common())
+				if cal == nil || cal.Name() != "Stop" || cal.Signature.Recv() == nil || !isNamed(cal.Signature.Recv().Type(), "time", "Ticker") {
+					continue
+				}
+				if len(ci.Common().Args) == 0 {
+					continue
+				}
+				recv := ci.Common().Args[0]
+				if strip(recv) == ssa.Value(mkv) || sl.sameRoot(recv, mkv) || sl.Slice(recv)[mkv] {
+					bad = b.m.Pos(in.Pos())
+				}
+			}
+		}
+		c.Check(bad == "", rule, FuncName(starter), "ticker stays live after the clock is started", b.m.Pos(mk.Pos()),
+			"no Stop of the ticker in the starting function (it is stopped by the stop function / the clock goroutine)",
+			"the function that starts the clock stops the ticker itself (at "+bad+"; a deferred Stop runs when it returns, right after the goroutine was spawned): the epoch never advances, garbage collection never runs, and buffered data and per-sender bookkeeping of topics that never start are kept for ever")
+	}
+	if n == 0 {
+		c.Bad(rule, "msg", "ticker construction", "-", "no call of Box.NewTicker found: nothing drives the epoch")
+	}
 }
